@@ -2,14 +2,17 @@ import Woodpile.Driver.Util
 import Woodpile.Driver.ReadN
 import Woodpile.Driver.Iovec
 import Woodpile.Driver.CodecW
+import Woodpile.Driver.RoughTlv
 
 open Woodpile.Driver
 
-def families : List (String × Family) := [
-  ("readn", ReadNFam.family),
-  ("iovec", IovecFam.family),
-  ("codecw", CodecWFam.family)
-]
+-- one `++ [...]` line per family, so that parallel branches merge cleanly
+def families : List (String × Family) :=
+  [("readn", ReadNFam.family)]
+  ++ [("iovec", IovecFam.family)]
+  ++ [("codecw", CodecWFam.family)]
+  ++ [("tlv", RoughTlvFam.family)]
+  ++ [("tlvview", RoughTlvFam.viewFamily)]
 
 def main (args : List String) : IO UInt32 := do
   match args with
